@@ -89,6 +89,9 @@ type VerifAutoScaling struct {
 	attachCalls  int
 	// LaunchBase: launch time reported for instances (unix seconds)
 	LaunchBase int64
+	// termFailAt: 1-based index of the TerminateInstanceInAutoScalingGroup call that fails
+	termFailAt int
+	termCalls  int
 }
 
 func (s *VerifAutoScaling) Group(name string) *VerifASG {
@@ -166,7 +169,8 @@ func (s *VerifAutoScaling) TerminateInstanceInAutoScalingGroup(in *autoscaling.T
 		c.Group = g.Name
 		c.Prev = g.Desired
 	}
-	if s.J.Fail("TerminateInstanceInAutoScalingGroup") {
+	s.termCalls++
+	if s.termCalls == s.termFailAt || s.J.Fail("TerminateInstanceInAutoScalingGroup") {
 		s.J.Calls = append(s.J.Calls, c)
 		return nil, errors.New("injected TerminateInstanceInAutoScalingGroup failure")
 	}
@@ -206,7 +210,7 @@ func (s *VerifAutoScaling) AttachInstances(in *autoscaling.AttachInstancesInput)
 	if g != nil {
 		c.Prev = g.Desired
 	}
-	if s.attachCalls == s.AttachFailAt || s.J.Fail("AttachInstances") {
+	if (s.AttachFailAt > 0 && s.attachCalls == s.AttachFailAt) || s.J.Fail("AttachInstances") {
 		s.J.Calls = append(s.J.Calls, c)
 		return nil, errors.New("injected AttachInstances failure")
 	}
@@ -415,12 +419,19 @@ type VerifBuilder struct {
 	Configs []cloudprovider.NodeGroupConfig
 	J       *VerifJournal
 	Builds  int
+	Failed  int
 }
 
 func (b *VerifBuilder) Build() (cloudprovider.CloudProvider, error) {
 	b.Builds++
 	if b.J != nil && b.J.Fail("Build") {
+		b.Failed++
 		return nil, errors.New("injected Build failure")
 	}
-	return VerifNewCloudProvider(b.Service, b.EC2, b.Configs...)
+	cloud, err := VerifNewCloudProvider(b.Service, b.EC2, b.Configs...)
+	if err != nil {
+		b.Failed++
+		return nil, err
+	}
+	return cloud, nil
 }
